@@ -776,6 +776,23 @@ let pred_c10 ?(mouts = None) steps impl =
                 else if not (two_call && os.(i) = "EA") then res := "0"
               end
           end) sts;
+      (* a save that FAILS (whatever the error: the adapter's, or the model lacking a policy definition) leaves the store
+         holding one complete policy: where the observation block reads the adapter's contents back (?rv), the answer after
+         the failed save is the one before it (the old policy) or the in-memory policy of that moment (the new one) *)
+      Array.iteri (fun i st ->
+          if st = "SV" && String.length os.(i) > 0 && os.(i).[0] = 'E' then begin
+            let n = block_before stl i in
+            if n > 0 && i + n < Array.length sts && sub_list stl (i - n) n = sub_list stl (i + 1) n then
+              for j = 1 to n do
+                if sts.(i + j) = "?rv" && os.(i + j) <> os.(i - n + j - 1) then begin
+                  let mem = List.filter (fun x -> x <> "-")
+                      (List.filter_map (fun k -> if sts.(i + k) = "?ga:p" || sts.(i + k) = "?ga:g" then Some os.(i + k) else None)
+                         (List.init n (fun k -> k + 1))) in
+                  let newv = if mem = [] then "-" else String.concat ";" mem in
+                  if os.(i + j) <> newv then res := "0"
+                end
+              done
+          end) sts;
       !res end
   | None -> "0"
 
